@@ -31,6 +31,7 @@ class Cmd:
         self.xfer = kw.get("xfer", "none")
         self.custom = kw.get("custom")  # name of data-out generator
         self.facade_unmarshall = kw.get("facade_unmarshall", False)
+        self.facade_req = kw.get("facade_req", [])  # arguments optional for the constructor but required by the facade method
         self.length = O.group_length(op)
 
     def load(self):
@@ -254,7 +255,7 @@ _LIST = [
         [("est", (1, 4, 3)), ("dap", (1, 1, 1)), ("lba", (2, 7, 32)), ("tl", (6, 7, 24)),
          ("mcsb", (9, 7, 5)), ("c2ei", (9, 2, 2)), ("scsb", (10, 2, 3))],
         [("lba", u(32, 0)), ("tl", ("cdtl", 24, 0)), ("est", u(3, 0)), ("dap", u(1, 0)), ("mcsb", u(5, 0)), ("c2ei", u(2, 0)), ("scsb", u(3, 0))],
-        facade="readcd", xfer="readcd", facade_unmarshall=True),
+        facade="readcd", xfer="readcd", facade_unmarshall=True, facade_req=["lba", "tl"]),
     Cmd("ReadDiscInformation", "scsi_cdb_readdiscinformation", "ReadDiscInformation", "READ_DISC_INFORMATION", 0x51, ["mmc"],
         [("data_type", (1, 2, 3)), ("alloc", (7, 7, 16))],
         [("data_type", u(3)), ("alloc_len", ("alloc", 16, 4096))],
